@@ -70,6 +70,9 @@ def run(ctx):
     from checks import c05_compose as cc
     e1 = cc.run_compose(ctx, nd, seed=s + 40)
     e2 = cc.run_paired(ctx, nd, seed=s + 40)
+    # the CLOSED reordering pass (coq/Reorder.v: regions, region choice, orderings, write-back) against runReorderingOnCells, exact
+    from checks import c05_reorder as cr
+    e3 = cr.run_reorder(ctx, 600 if ctx.quick else 12000, seed=s, extra=(dres["lines"], dres["impl"]))
     for x in e1["mono_fail"][:2]:
         ofail.append((x[0], str(x[1])[:2000], "DetailedPlacer driven directly: Circuit::hpwl of an exposed circuit rose between two exposed states although no polarised cell "
                                                "changed orientation (outside known finding F8): " + str(x[2] if len(x) > 2 else "")))
@@ -111,6 +114,11 @@ def run(ctx):
         broken.append(("correspondence DetailedValue.v paired model <-> DetailedPlacer (structure + net models + export after every best-move op) broken (%d runs differ)" % len(e2["mismatch"]),
                        {"broken": "correspondence of coq/DetailedValue.v pbest / init_models / write_back (theorems c05_coupling_*, c05_exposed_wirelength_never_increases)",
                         "first_difference": {"case": x[0], "detail": str(x[1:])[:2000]}}))
+    if e3["mismatch"] or e3["driver_fail"]:
+        x = (e3["mismatch"] + e3["driver_fail"])[0]
+        broken.append(("correspondence Reorder.v closed reordering pass <-> RowReordering / runReorderingOnCells broken (%d runs differ)" % (len(e3["mismatch"]) + len(e3["driver_fail"])),
+                       {"broken": "correspondence of coq/Reorder.v run (theorems c05_closed_reordering_is_paired_step, c05_closed_reordering_never_worsens, c05_closed_reordering_returns_minimum)",
+                        "first_difference": {"case": x[0], "detail": str(x[1:])[:2000]}}))
     if e1["driver_fail"] or e2["driver_fail"]:
         x = (e1["driver_fail"] + e2["driver_fail"])[0]
         broken.append(("the composition tie could not be evaluated (%d cases)" % (len(e1["driver_fail"]) + len(e2["driver_fail"])),
@@ -125,6 +133,7 @@ def run(ctx):
                                                         "(needs the hook coloquinte_verif_shift_hook in /repo; without it only 'value after <= value before' is observed)",
                                                         "candidate positions of the best-move calls are taken from the implementation (theorems hold for every candidate list)"],
                 "composition_statements_on_exposed_states": cc.summary(e1), "composition_paired_model_tie": cc.summary(e2),
+                "closed_reordering_pass_tie": cr.summary(e3),
                 "evaluations": dres["runs"] + cres["runs"],
                 "distinct_nontrivial": dres["nontrivial"] + cres["hpwl_improved_runs"],
                 "rule": "DO: random circuits (C01 generator with nets), legalized, then 1-8 random optimiser ops on DetailedPlacer (best-move calls with random "
@@ -141,7 +150,7 @@ def run(ctx):
                 "known_F8_matches": known,
                 "shift_lp_certificates": do.lp_summary(lp),
                 "samples": [dres["lines"][0][:600], cres["lines"][0][:600]],
-                "model_vs_impl_differences": len(dres["model_mismatch"]) + len(dres["value_fail"]) + len(lp["net_diff"]) + len(lp["cert_rejected"]) + len(lp["pos_diff"]),
+                "model_vs_impl_differences": len(dres["model_mismatch"]) + len(dres["value_fail"]) + len(lp["net_diff"]) + len(lp["cert_rejected"]) + len(lp["pos_diff"]) + len(e3["mismatch"]),
                 "impl_outputs_violating_statement": len(ofail)})
     return ctx.finish(LEVEL, cov, ["the shift pass is certified per call (proved LP certificate checker on lemon's potentials and flows, %d calls this run); the network simplex itself is not modelled"
                                    % lp["records"] if lp["records"] else
